@@ -15,7 +15,16 @@ class FactSet:
         self.raw = r["facts"]
         self.wall = r["wall"]
         ck.analysed["configs"].append({"cfg": cfg, "cargo_rc": r["rc"], "crates": sorted(r["facts"]), "extract_wall_s": r["wall"]})
-        self.crates = {k: hir.Crate(v) for k, v in r["facts"].items()}
+        self.crates = {}
+        for k, v in r["facts"].items():
+            if k.split(".")[0] == "microscpi" and custom is None:
+                # private functions are addressed by role: located by structure, carried under their canonical path
+                import roles
+                v, found = roles.canonicalise(v)
+                moved = {role: actual for role, actual in found.items() if actual != roles.P + role}
+                if moved:
+                    ck.extra.setdefault("roles_located_under_another_name", {}).update(moved)
+            self.crates[k] = hir.Crate(v)
 
     def crate(self, stem):
         return self.crates.get(stem)
